@@ -47,8 +47,39 @@ def ev_name(e):
     return 'e%d' % e
 
 
+_DUAL = {}      # set by build(): which elements of the chart being realised share one source text
+
+
+def _empty(d):
+    return not (d['incx'] or d['sends'] or d['nots'] or d['tick'])
+
+
+def dual_of(c):
+    """Pairs of elements that are given the very same source text: the (oracle) guard of transition ta and the
+    action of another transition tb; the first precondition of a state and the entry code of another state.  The
+    elements on the statement side have an empty descriptor, so the text has one meaning per role (probes.dg/dc)."""
+    out = {}
+    tr = c['trans']
+    if len(tr) % 2 == 0:
+        ora = [i + 1 for i, t in enumerate(tr) if t['gk'] == 'oracle']
+        bare = [i + 1 for i, t in enumerate(tr) if _empty(t['act']) and tr.count(t) == 1]
+        pairs = [(a, b) for a in ora for b in bare if a != b]
+        if pairs:
+            out['g'] = pairs[0]
+    owners = [s for s in range(1, c['n'] + 1) if c['spre'][s - 1] >= 1]
+    quiet = [s for s in range(1, c['n'] + 1) if _empty(c['entry'][s - 1])]
+    pairs = [(o, s) for o in owners for s in quiet if o != s]
+    if pairs and c['n'] % 2 == 1:
+        out['c'] = pairs[0]
+    return out
+
+
 def code_of(kind, ident, d):
     """Python source of a code fragment with descriptor d."""
+    if kind == 'a' and _DUAL.get('g', (0, 0))[1] == ident:
+        return 'dg(%d, %d, x, time, event)' % _DUAL['g']
+    if kind == 'e' and _DUAL.get('c', (0, 0))[1] == ident:
+        return 'dc(%d, 1, %d, x, time)' % _DUAL['c']
     if kind == 'a':
         lines = ["p('a', %d, x, time, event)" % ident]
     else:
@@ -79,6 +110,8 @@ def guard_of(tid, t, names):
     if gk == 'none':
         return None
     if gk == 'oracle':
+        if _DUAL.get('g', (0, 0))[0] == tid:
+            return 'dg(%d, %d, x, time, event)' % _DUAL['g']
         return 'g(%d, event, time)' % tid
     if gk == 'after':
         return 'g(%d, event, time, after(%d))' % (tid, t['ga'])
@@ -92,6 +125,8 @@ def guard_of(tid, t, names):
 
 
 def cond_code(ck, owner, idx):
+    if ck == 1 and idx == 1 and _DUAL.get('c', (0, 0))[0] == owner:
+        return 'dc(%d, 1, %d, x, time)' % _DUAL['c']
     if ck == 1:
         return 'c(1, %d, %d, time)' % (owner, idx)
     gen = ' and all(v >= 0 for v in lst)' if (owner + idx) % 3 == 0 else ''     # a nested scope inside a condition
@@ -309,6 +344,8 @@ def yaml_text(c, names, reverse=False):
 
 def build(c, variant='api', pool='plain', seed=0):
     names = names_for(c, pool)
+    _DUAL.clear()
+    _DUAL.update(dual_of(c))
     if variant == 'api':
         sc = build_api(c, names, random.Random(seed), 'random')
     elif variant == 'api_edit':
@@ -326,7 +363,7 @@ def build(c, variant='api', pool='plain', seed=0):
     return sc, names
 
 
-_TID = re.compile(r"p\('a', (\d+),")
+_TID = re.compile(r"(?:p\('a'|dg\(\d+), (\d+),")
 
 
 def tid_of(transition):
